@@ -13,15 +13,39 @@ use std::io::Write;
 
 const TWO33: f64 = 8589934592.0;
 
+/// The named arguments of Rng.tla (ArgNames): value, and a BASIC expression with that value.
 fn arg_of(sign: &str) -> f64 {
     match sign {
         "pos" => 1.0,
         "zero" => 0.0,
-        _ => -1.0,
+        "neg" => -1.0,
+        "half" => 0.5,
+        "neghalf" => -0.5,
+        "negzero" => -0.0,
+        "tiny" => 1.0 / 1048576.0,
+        "big" => 1000000.0,
+        "threehalves" => 1.5,
+        "nan" => f64::NAN,
+        "pinf" => f64::INFINITY,
+        "ninf" => f64::NEG_INFINITY,
+        _ => panic!("unknown argument name {sign}"),
     }
 }
 
-fn print_rnd_core(it: &mut Interpreter, arg: f64) -> Result<String, String> {
+fn arg_text(sign: &str) -> String {
+    match sign {
+        "negzero" => "-0".to_string(),
+        "tiny" => "1/1048576".to_string(),
+        "nan" => "(-8)^.5".to_string(),
+        "pinf" => "0^-1".to_string(),
+        "ninf" => "-(0^-1)".to_string(),
+        _ => format!("{}", arg_of(sign)),
+    }
+}
+
+pub const ARG_NAMES: &[&str] = &["pos", "zero", "neg", "half", "neghalf", "negzero", "tiny", "big", "threehalves", "nan", "pinf", "ninf"];
+
+fn print_rnd_core(it: &mut Interpreter, arg: &str) -> Result<String, String> {
     it.take_output();
     match it.start_evaluating(format!("PRINT RND({})", arg)) {
         Ok(()) => Ok(it.take_output().into_iter().filter_map(|o| if let InterpreterOutput::Print(s) = o { Some(s) } else { None }).collect()),
@@ -67,14 +91,14 @@ pub fn replay_rows(tlc_out: &str, rep: &mut Report) {
                 }
                 st = after;
                 // (2) the same call as PRINT RND(x) on the core interpreter and on the Web adapter
-                let core = print_rnd_core(&mut it, arg_of(sg));
+                let core = print_rnd_core(&mut it, &arg_text(sg));
                 let expected_text = if expect_err { None } else { Some(format!("{}\n", expected_state as f64 / TWO33)) };
                 match (&core, &expected_text) {
                     (Ok(t), Some(e)) if t == e => {}
                     (Err(k), None) if k == "unimplemented" => {}
                     _ => problems.push(format!("call {}: PRINT RND gave {:?}, expected {:?}", i, core, expected_text)),
                 }
-                web.start_evaluating(format!("PRINT RND({})", arg_of(sg)));
+                web.start_evaluating(format!("PRINT RND({})", arg_text(sg)));
                 let wtext: String = web.take_latest_output().into_iter().map(|o| o.into_string()).collect();
                 let werr = web.take_latest_error();
                 match (&core, werr) {
@@ -103,7 +127,7 @@ pub fn record(seed: u64, n: usize, out: &str) {
         let before: u64 = if i < boundary.len() * 3 { boundary[i / 3] } else {
             match rng.gen_range(0..4) { 0 => rng.gen::<u64>(), 1 => rng.gen_range(0..1u64 << 33), 2 => rng.gen_range(0..1u64 << 44), _ => rng.gen_range(0..100000) }
         };
-        let sign = if i < boundary.len() * 3 { ["pos", "zero", "neg"][i % 3] } else { ["pos", "pos", "zero", "neg"][rng.gen_range(0..4)] };
+        let sign = if i < boundary.len() * 3 { ["pos", "zero", "neg"][i % 3] } else if rng.gen_bool(0.5) { ["pos", "pos", "zero", "neg"][rng.gen_range(0..4)] } else { ARG_NAMES[rng.gen_range(0..ARG_NAMES.len())] };
         let ev = match std::panic::catch_unwind(|| {
             // what randomize(before) stores, then one call
             let mut it = Interpreter::default();
